@@ -15,7 +15,7 @@ REQUIRED_EVENTS = ["hits_located", "operand_not_probes", "double_negation_probes
 
 
 def feat(rng):
-    return RG.Feat(operands=0.6, nots=0.45, onots=0.3, groups=0.15, ogroups=0.25, group_times=0.25, max_depth=2,
+    return RG.Feat(operands=0.6, nots=0.45, onots=0.3, groups=0.15, ogroups=0.25, group_times=0.25, ocaps=0.3, icaps=0.15, regfam=0.15, max_depth=2,
                    max_spine=rng.choice([1, 2, 3, 4]))
 
 
